@@ -2157,8 +2157,12 @@ static echs_iobuf_t bufs[MAX_CONNS];
 static struct echs_conn_s*
 make_conn(void)
 {
-	int i = ffs(free_conns & 0xffffffffU)
-		?: ffs(free_conns >> 32U & 0xffffffffU);
+	int i = ffs(free_conns & 0xffffffffU);
+
+	if (!i && (i = ffs(free_conns >> 32U & 0xffffffffU))) {
+		/* a slot of the upper half */
+		i += 32;
+	}
 
 	if (LIKELY(i-- > 0)) {
 		/* toggle bit in free conns */
